@@ -59,8 +59,25 @@ def main() -> int:
             mod.pre(ck)  # regenerate Gen/*.lean from /repo
         ck.prove(lean_modules)
         mod.run(ck)
-    except Exception:  # noqa: BLE001
+    except Exception as e:  # noqa: BLE001
         traceback.print_exc()
+        # An exception the harness did not anticipate.  If it was RAISED INSIDE THE LIBRARY under test (innermost frame in
+        # <repo>/aioesphomeapi) while a scenario was driving it, the implementation left the behaviour every scenario of this
+        # check has on the unchanged tree: that is a concrete failing execution (the traceback is the replay).  If it was
+        # raised in the harness itself it is a fault of the machinery: exit 2, no verdict.
+        import common
+        tb = traceback.extract_tb(e.__traceback__)
+        lib = str(common.REPO.resolve() / "aioesphomeapi")
+        inner = tb[-1] if tb else None
+        if inner is not None and str(os.path.realpath(inner.filename)).startswith(lib):
+            frames = [f"{os.path.relpath(f.filename, str(common.REPO.resolve())) if f.filename.startswith(str(common.REPO.resolve())) else os.path.basename(f.filename)}:{f.lineno} {f.name}" for f in tb]
+            ck.violation(f"{pid.lower()}:library-raised:{type(e).__name__}:{os.path.basename(inner.filename)}:{inner.name}",
+                         f"while the check was driving the implementation, {os.path.basename(inner.filename)}:{inner.lineno} ({inner.name}) raised "
+                         f"{type(e).__name__}: {e} - on the unchanged tree no scenario of this check does",
+                         {"exception": type(e).__name__, "message": str(e)[:500], "traceback": frames,
+                          "note": "the scenario is the call chain above (harness frames name the generator and the operation); "
+                                  "the remaining scenarios of this run were not executed"})
+            return ck.finish()
         print(f"[{pid}] internal error in the check machinery (exit 2, not a verdict)", file=sys.stderr)
         return 2
     return ck.finish()
